@@ -1,6 +1,10 @@
 """property id -> check function(prop, tier, seed, replay) -> exit code"""
-from . import checks_zone
+from . import checks_civil, checks_zone
 
 CHECKS = {}
 for _p in ("C01", "C02", "C03", "C06", "C10", "C11"):
     CHECKS[_p] = checks_zone.run
+for _p in ("C04", "C05", "C17"):
+    CHECKS[_p] = checks_civil.run
+
+PREBUILD = [("asan", "zonemon"), ("asan", "civilmon")]
